@@ -38,7 +38,9 @@ def run(tier, seed):
                         if rng.random() < 0.3:
                             e = ("bin", "add", ("sz", f"{name}.{f0}", sp), ("num", 1))
                     else:
-                        e = ("num", rng.choice([0, 1, 3, 7, 16, 100, 255, 256, 4096]))
+                        e = ("num", rng.choice([0, 1, 3, 7, 16, 100, 255, 256, 4096, 65535, 65536, 70000, 0x7FFF0000]))
+                        if rng.random() < 0.12:
+                            e = ("bin", "sub", ("num", 0), ("num", rng.choice([1, 4, 300])))      # a negative size (overlay)
                     ms.append(("f", fn, e))
                     lines.append(f"  {fn} {G.text(rng, e)}")
                     hist["field"] += 1
